@@ -174,9 +174,9 @@ class Report(object):
         if not os.environ.get("VERIF_NOEVIDENCE"):      # (mutant trials must not overwrite the evidence of the real tree)
             with open(os.path.join(EVID, self.prop + ".json"), "w") as f:
                 json.dump(ev, f, indent=1, sort_keys=True)
-        for i, n in sorted(self.known.items()):
-            f_ = self.open_ids[i]
-            print("KNOWN-FINDING: property=%s %s %s (%d cases this run)" % (self.prop, i, f_["what"], n))
+        for i, f_ in sorted(self.open_ids.items()):
+            if self.prop in f_["properties"]:
+                print("KNOWN-FINDING: property=%s %s %s (%d cases excused this run)" % (self.prop, i, f_["what"], self.known.get(i, 0)))
         if self.violations:
             os.makedirs(REPLAYS, exist_ok=True)
             seen, first, rest = set(), [], []
